@@ -157,7 +157,12 @@ theorem searchOnce_error_not_search (c : Client) (t : Bytes) (q : Query) (ex : E
         | false =>
           rw [hi] at h
           simp only [Bool.false_eq_true, if_false] at h
-          split at h <;> cases h
+          cases hs : (!Client.startKeyOk tb q) with
+          | true => rw [hs] at h; simp only [if_true] at h; cases h
+          | false =>
+            rw [hs] at h
+            simp only [Bool.false_eq_true, if_false] at h
+            split at h <;> cases h
 
 /-- Count equals the number of items returned -/
 theorem query_count (c : Client) (table : Bytes) (q : Query) (ex : Exprs) (items : List Item) (n : Nat) (lek : Item)
